@@ -4,6 +4,7 @@ from __future__ import annotations
 
 from typing import TYPE_CHECKING
 
+import numpy as np
 from scipy.linalg import lapack
 
 if TYPE_CHECKING:
@@ -27,6 +28,10 @@ def residual_variable_projection(
     tuple[ArrayLike, ArrayLike]
         The clps and the residual.
     """
+    if matrix.shape[1] == 0:
+        # No clp left (e.g. all of them constrained to zero): the residual is the data itself.
+        return np.zeros(0, dtype=np.float64), np.array(data, dtype=np.float64)
+
     # TODO: Reference Kaufman paper
 
     # Kaufman Q2 step 3
